@@ -183,6 +183,33 @@ def concrete_runs(ctx, al, prog, sym_terms, variant):
                           {"program": prog, "element_type": tname, "expected": repr(want), "observed": repr(got)})
 
 
+LADDER = [2, 2.0, Fraction(2), True, 1, 1.0, Fraction(1), Fraction(1, 2), 0.5]
+
+
+def scalar_ladder(ctx, al):
+    """Equal scalars of different types in successive expressions: every expression uses the operand IT was given
+    (the repeated value is that object, not an equal one met earlier)."""
+    elems = [Fraction(1, 3), Fraction(5, 3), Fraction(7, 2)]
+    for name in ("add", "sub", "mul", "truediv", "pow", "floordiv", "mod", "lt", "eq", "ge"):
+        f = OPF[name]
+        for side in ("right", "left"):
+            for sc in LADDER + LADDER[::-1]:
+                try:
+                    want = [f(e, sc) if side == "right" else f(sc, e) for e in elems]
+                except Exception:
+                    continue
+                try:
+                    res = f(al.Stream(elems), sc) if side == "right" else f(sc, al.Stream(elems))
+                    got = list(res)
+                except Exception as ex:
+                    got = ["raised " + type(ex).__name__]
+                ctx.count(1)
+                if len(got) != len(want) or not all(same_value(g, w) for g, w in zip(got, want)):
+                    ctx.violation("C01:scalar-operand:%s" % name,
+                                  {"expression": "Stream(thirds) %s %r" % (name, sc) if side == "right" else
+                                   "%r %s Stream(thirds)" % (sc, name), "expected": repr(want), "observed": repr(got)})
+
+
 def prog_key(prog):
     return tlaval.to_tla(prog)
 
@@ -333,6 +360,14 @@ def make_container(al, kind, items):
         return frozenset(items), lambda: 0
     if kind == "Stream":
         return al.Stream(iter(src)), lambda: src.read
+    if kind == "StreamTeeHub":
+        return al.thub(al.Stream(iter(src)), 1), lambda: src.read
+    if kind == "Streamix":
+        mix = al.Streamix(zero=0)
+        mix.add(0, iter(src))
+        return mix, lambda: src.read
+    if kind == "ControlStream":
+        return None, None
     if kind == "generator":
         return (x for x in src), lambda: src.read
     if kind == "range":
@@ -446,6 +481,22 @@ def m2_broadcast(ctx, al):
                 continue
             elif kind == "str":
                 continue
+            elif kind == "ControlStream":
+                # an endless stream of its control value: the first n outputs are f(value)
+                if n == 0:
+                    continue
+                cs = al.ControlStream(pool[0])
+                try:
+                    res = f(cs)
+                    got = res.take(n) if isinstance(res, al.Stream) else None
+                except Exception as ex:
+                    ctx.violation("C01:broadcast:raises:%s" % kind, {"fn": name, "kind": kind, "error": repr(ex)})
+                    continue
+                ok = got is not None and len(got) == n and all(same_value(g, f(pool[0])) for g in got)
+                recs.append({"what": "bcast", "fn": name, "kind": kind, "n": n, "outkind": kind_of(al, res),
+                             "read_at_call": 0, "outlen": n if got is not None else -1, "elementwise": bool(ok)})
+                ctx.count(1)
+                continue
             else:
                 cont, reads = make_container(al, kind, items)
             try:
@@ -465,7 +516,8 @@ def m2_broadcast(ctx, al):
                 outkind = "scalar" if ok else "changed"
                 outlen = 1
             else:
-                got = list(res)
+                # (bounded: a wrongly rebuilt Stream subclass can come back endless)
+                got = list(itertools.islice(iter(res), len(items) + 3))
                 outlen = len(got)
                 want = [f(x) for x in items]
                 if kind in ("set", "frozenset"):
@@ -503,6 +555,7 @@ def check(ctx):
                        "values of transcendental functions are compared with the same function applied per element",
                        "concrete element types only where the type implements the operator"]
     op_table(ctx, al)
+    scalar_ladder(ctx, al)
     if ctx.thorough:
         m2_expr(ctx, al, "StreamOpsC01T", "StreamOpsC01T.cfg")
         m3_expr(ctx, al, 6000)
